@@ -22,23 +22,28 @@ EXTENDS Integers, Sequences, FiniteSets, TLC, Json
 
 CONSTANTS MaxMut, Emit
 
-Shapes == {"list", "strkeys", "nested", "mixed", "emptynested"}
+\* jsonnested: a keyed array that comes out of json_decode(..., true) -- another constructor of the same kind of value
+Shapes == {"list", "strkeys", "nested", "mixed", "emptynested", "jsonnested"}
 ValueRoutes == {"assign", "param", "return", "getter", "propstore", "propload", "elemstore", "elemload", "clone",
-                "variadic", "spread", "arraypush", "ctorparam", "methodparam"}
+                "variadic", "spread", "arraypush", "ctorparam", "methodparam",
+                \* a closure that captures the array by value: function () use ($a) { ... }
+                "closureuse"}
 SharingRoutes == {"ref", "refparam", "handle"}
 Routes == ValueRoutes \cup SharingRoutes
 Muts == {"store0", "storenew", "storestr", "append", "nested", "nestedappend", "nestedkey", "nestedkeyappend", "unset", "sort", "push", "pop", "shift", "unshift", "incr"}
 \* which mutations make sense on which shape
 Applies(m, sh) ==
   CASE m \in {"nested", "nestedappend"} -> sh \in {"nested", "mixed", "emptynested"}
-    [] m \in {"nestedkey", "nestedkeyappend"} -> sh = "emptynested"          \* writes into the empty array under a string key
+    [] m = "store0" -> sh # "jsonnested"
+    [] m \in {"nestedkey", "nestedkeyappend"} -> sh \in {"emptynested", "jsonnested"}          \* writes into the empty array under a string key
     [] m \in {"sort", "push", "pop", "shift", "unshift"} -> sh \in {"list", "nested"}
     [] m = "incr" -> sh \in {"list", "strkeys", "mixed", "emptynested"}
+    [] m = "unset" -> sh # "jsonnested"
     [] OTHER -> TRUE
 \* mutations the pinned mechanism performs in place on shared slots / shared nested arrays
 InPlace(m) == m \in {"store0", "nested", "nestedappend", "nestedkey", "nestedkeyappend", "incr"}
 \* inside a callee only the parameter (the copy) can be mutated
-SideOK(r, side) == r \in {"param", "refparam", "variadic", "spread", "methodparam"} => side = "copy"
+SideOK(r, side) == r \in {"param", "refparam", "variadic", "spread", "methodparam", "closureuse"} => side = "copy"
 
 VARIABLES shape, route, cells, bind, slots, nmut, act
 vars == <<shape, route, cells, bind, slots, nmut, act>>
